@@ -1333,8 +1333,10 @@ def v_hist_later_exposure(rng, doc):
 
 
 def v_native_sample_foreign_family(rng, doc):
-    """a native-histogram sample line moved into the sample block of ANOTHER histogram family (interleaved families): the
-    unchanged parser attaches it to that family whatever its name"""
+    """a native-histogram sample line moved into the sample block of ANOTHER histogram family: interleaved families, and
+    late metadata when that family stands in front of its own.  (Before fixes/C15-om-native-foreign-name.diff the parser
+    attached a native sample to the histogram family in progress whatever its name and accepted these documents; now
+    only the native sample named like the family in progress skips the family switch, a foreign one is rejected.)"""
     tagged = doc_lines(doc)
     lines = [l for l, _f, _t in tagged]
     out = []
@@ -1354,9 +1356,9 @@ def v_native_sample_foreign_family(rng, doc):
     return out
 
 
-KNOWN_RULES = {'hist_bucket_repeated': v_hist_bucket_repeated, 'hist_le_nan': v_hist_le_nan,
-               'native_sample_foreign_family': v_native_sample_foreign_family}
+KNOWN_RULES = {'hist_bucket_repeated': v_hist_bucket_repeated, 'hist_le_nan': v_hist_le_nan}
 RULES['hist_later_exposure'] = v_hist_later_exposure
+RULES['native_sample_foreign_family'] = v_native_sample_foreign_family
 
 
 def v_group_interleaved(rng, doc):
@@ -1438,6 +1440,15 @@ def focused_violations(rng, doc, fi, per_rule=None):
 
 # ---------------------------------------------------------------- literal regression documents
 _NH = '{count:1,sum:1,schema:0,zero_threshold:0,zero_count:0}'
+# rule native_sample_foreign_family, literal instances (C15 feeds them to its direct oracle): every one must be rejected
+NATIVE_FOREIGN_DOCS = [
+    '# TYPE a histogram\na %s\n# TYPE b histogram\nb %s\na {count:2,sum:1,schema:0,zero_threshold:0,zero_count:0}\n# EOF\n' % (_NH, _NH),
+    '# TYPE b histogram\nb %s\na {count:2,sum:1,schema:0,zero_threshold:0,zero_count:0}\n# TYPE a histogram\n# EOF\n' % _NH,
+    '# TYPE a histogram\nzzz %s\n# EOF\n' % _NH,
+    '# TYPE a histogram\n{"zzz"} %s\n# EOF\n' % _NH, '# TYPE a histogram\nzzz{x="y"} %s\n# EOF\n' % _NH,
+    '# TYPE a histogram\na_bucket{le="+Inf"} 1\nb %s\n# EOF\n' % _NH,
+    '# TYPE " a" histogram\n{"a"} %s\n# EOF\n' % _NH,
+]
 REGRESSION_DOCS = [
     '# TYPE a histogram\na {x:1}\n# EOF\n',                                   # F12 KeyError('count')
     '# TYPE a histogram\na {count:1}\n# EOF\n',
@@ -1447,7 +1458,13 @@ REGRESSION_DOCS = [
     '# TYPE a histogram\na_gsum %s\n# EOF\n' % _NH,                           # TypeError
     '# TYPE a histogram\na_gcount %s\n# EOF\n' % _NH,                         # AttributeError None.is_integer
     '# TYPE a histogram\na_gcount{x="y"} %s\n# EOF\n' % _NH,
-    '# TYPE a histogram\nzzz %s\n# EOF\n' % _NH,
+    # a native-histogram sample of a foreign name inside a histogram family (attached to it before
+    # fixes/C15-om-native-foreign-name.diff): interleaved families, late metadata, a name nobody declared - and the
+    # native samples that stay accepted: named like the family in progress, bare or quoted
+] + NATIVE_FOREIGN_DOCS + [
+    '# TYPE "a.b" histogram\n{"a.b"} %s\n{"a.b",x="y"} %s\n# EOF\n' % (_NH, _NH),
+    '# TYPE " a" histogram\n{" a"} %s\n# EOF\n' % _NH,
+    '# TYPE "a\\nb" histogram\n{"a\\nb"} %s\n# EOF\n' % _NH,
     '# TYPE "a.b" histogram\n{"a.b_bucket",le="1"} %s\n# EOF\n' % _NH,     # quoted name: suffix test ran on ''
     '# TYPE "a.b" histogram\n{"a.b_sum"} 1%s\n# EOF\n' % _NH,
     '# TYPE "a.b" histogram\n{"a.b_count"} %s\n# EOF\n' % _NH,
